@@ -1,5 +1,6 @@
 import RemocModel.Base.Model
 import RemocModel.Base.Mpsc
+import RemocModel.Base.CloseReplay
 import Driver.Util
 /-
 Driver for the typed-channel harness (`harness/src/bin/base.rs`): C04 and the typed part of C11.
@@ -401,17 +402,128 @@ def replayCase (c : CaseSt) : List String × Bool := Id.run do
     return (diffs, true)
   else return ([], false)
 
+/-! ### queued channels (mpsc, oneshot): M_close -/
+
+def hresOf (h : String) : Option Remoc.Close.HRes :=
+  if h == "ok" then some .ok else if h == "dropped" then some .dropped
+  else if h == "pending" || h == "none" then none else some .sendErr
+
+structure CloseVerdict where
+  fails : List String := []
+  diffs : List String := []
+  links : Nat := 0
+  replayed : Nat := 0
+  dropped : Nat := 0
+
+/-- index of the first event line satisfying `p` -/
+def evIndex (c : CaseSt) (p : String → Bool) : Option Nat := c.events.findIdx? p
+
+/-- Predicates of `Props/C11.lean` (namespace `Remoc.Close`) on the real observations of a queued channel,
+and the replay of every link on M_close. -/
+def checkClose (c : CaseSt) : CloseVerdict := Id.run do
+  let mut v : CloseVerdict := {}
+  let ev := Remoc.Close.Ev.ofString c.event
+  let once := c.kind == "oneshot"
+  let mcfg : Remoc.Close.Cfg := if once then { cap := 1, rcap := 1, oneshot := true } else { cap := 2, rcap := 2 }
+  let tags := recvTags c
+  let sawEos := c.recvs.any (fun r => match r with | .eos => true | _ => false)
+  let finalErr := c.recvs.any (fun r => match r with | .err _ true => true | _ => false)
+  let cleanEnd := c.complete == some true && sawEos && !finalErr
+  let fired := c.events.contains (if c.event == "close" then "rclose" else if c.event == "droprx" then "rdrop" else if c.event == "connfail" then "connfail" else "")
+  let nLocal := (c.links.filter (·.2 == "local")).length
+  -- mpsc_eos_after_all_senders: without a close no end-of-stream while a sender is alive
+  if sawEos && (c.event == "none" || c.event == "droptx") && !c.events.any (·.endsWith "panicked") then
+    match evIndex c (· == "@eos") with
+    | some ie =>
+      for (sid, lk) in c.links do
+        -- a link on which an item failed has closed itself (reason `Failed`, F10): its senders count as gone
+        if linkHadItemFailure c lk then continue
+        match evIndex c (· == s!"txdrop {sid}") with
+        | some it => if it > ie then v := { v with fails := v.fails ++ [s!"{c.event}: end-of-stream was delivered while sender {sid} was still alive (it was dropped later)"] }
+        | none => v := { v with fails := v.fails ++ [s!"{c.event}: end-of-stream was delivered but sender {sid} was never dropped"] }
+    | none => pure ()
+  -- `SendError::closed_reason()` of a refused send is the model's `errReason` of the recorded error
+  if !once then
+    for s in c.sends do
+      match Remoc.Close.rerrOfKind s.res with
+      | some e =>
+        let want := Remoc.Close.reasonName (Remoc.Close.errReason e)
+        if getKV s.kv "reason" != "" && getKV s.kv "reason" != want then
+          v := { v with diffs := v.diffs ++ [s!"send tag {s.tag} of sender {s.sender} failed with '{s.res}': its closed_reason() is {getKV s.kv "reason"}, M_close (errReason): {want}"] }
+      | none => pure ()
+  for link in (c.links.map (·.2)).eraseDups do
+    if link == "local" then continue
+    v := { v with links := v.links + 1 }
+    let sids := (c.links.filter (·.2 == link)).map (·.1)
+    let acc := c.sends.filter (fun s => linkOf c s.sender == link && s.res == "queued")
+    let hs := acc.map (fun s => (s, handleOf c s))
+    -- mpsc_queued_suffix_dropped: every handle resolved, never a gap (per link and per sender clone)
+    for (s, h) in hs do
+      if (hresOf h).isNone then
+        v := { v with fails := v.fails ++ [s!"{c.event}: Sending handle of item tag {s.tag} (sender {s.sender}) never resolved"] }
+    let rs := hs.filterMap (fun p => hresOf p.2)
+    v := { v with dropped := v.dropped + (rs.filter (· == .dropped)).length }
+    if !Remoc.Close.suffixOk rs then
+      v := { v with fails := v.fails ++ [s!"{c.event}: link {link}: the Sending handles [{" ".intercalate (rs.map Remoc.Close.hresName)}] show a transmitted or failed value after a dropped one (dropped values must form a suffix)"] }
+    -- mpsc_close_keeps_transmitted: delivered = transmitted prefix, everything at a clean end
+    let sure := fun (s : SendRec) => surelyReceivable c s
+    let xmit := (hs.filter (fun p => p.2 == "ok" && sure p.1)).map (·.1.tag)
+    let del := tags.filter (fun t => acc.any (fun s => s.tag == t && sure s))
+    let single := ((c.links.map (·.2)).eraseDups.filter (· != "local")).length == 1
+    if ev != .connfail && !Remoc.Close.deliveredOk del xmit (cleanEnd && ev != .droprx) then
+      v := { v with fails := v.fails ++ [s!"{c.event}: link {link}: delivered values {del} are not {if cleanEnd then "all" else "a prefix"} of the transmitted values {xmit} (Sending handles Ok) although the stream {if cleanEnd then "ended cleanly" else "is still open"}"] }
+    -- replay on M_close
+    let itemFailed := linkHadItemFailure c link || rs.contains .sendErr
+    if itemFailed || rs.length != hs.length || !Remoc.Close.suffixOk rs then continue
+    if (ev == .close || ev == .droprx || ev == .connfail) && !fired then continue
+    let vals : List Remoc.Close.Val := acc.map fun s => { id := s.tag, sender := s.sender }
+    let k := (rs.filter (· == .ok)).length
+    v := { v with replayed := v.replayed + 1 }
+    match Remoc.Close.replayLink mcfg vals k ev sids.length nLocal with
+    | .error (i, l) =>
+      v := { v with diffs := v.diffs ++ [s!"link {link}: M_close cannot follow the real run ({vals.length} values accepted, {k} transmitted, event {c.event}): label {repr l} (position {i}) is not enabled"] }
+    | .ok out =>
+      if out.hres != rs then
+        v := { v with diffs := v.diffs ++ [s!"link {link}: Sending handles differ from M_close: real [{" ".intercalate (rs.map Remoc.Close.hresName)}] model [{" ".intercalate (out.hres.map Remoc.Close.hresName)}]"] }
+      for sid in sids do
+        match stateOf c sid with
+        | some st =>
+          if getKV st "reason" != Remoc.Close.reasonName out.reason then
+            v := { v with diffs := v.diffs ++ [s!"link {link}: sender {sid} closed_reason() = {getKV st "reason"}, M_close: {Remoc.Close.reasonName out.reason} (event {c.event})"] }
+          if getKV st "isclosed" != (if out.reason.isSome then "1" else "0") then
+            v := { v with diffs := v.diffs ++ [s!"link {link}: sender {sid} is_closed() = {getKV st "isclosed"}, M_close: {out.reason.isSome}"] }
+        | none => pure ()
+      if single && (ev == .close || ev == .droptx || ev == .none) && c.complete == some true then
+        if out.delivered != del && acc.all sure then
+          v := { v with diffs := v.diffs ++ [s!"link {link}: delivered values differ from M_close: real {del} model {out.delivered}"] }
+        if !once && nLocal == 0 && (out.eos == some true) != cleanEnd then
+          v := { v with diffs := v.diffs ++ [s!"link {link}: clean end-of-stream: real {cleanEnd}, M_close {repr out.eos}"] }
+  -- local senders read the receiver's watch directly
+  if nLocal > 0 && (ev == .close || ev == .droprx) && fired then
+    match Remoc.Close.replayLink mcfg [] 0 ev 0 nLocal with
+    | .error _ => pure ()
+    | .ok out =>
+      for (sid, lk) in c.links do
+        if lk != "local" then continue
+        match stateOf c sid with
+        | some st =>
+          if getKV st "reason" != Remoc.Close.reasonName out.lreason then
+            v := { v with diffs := v.diffs ++ [s!"local sender {sid} closed_reason() = {getKV st "reason"}, M_close: {Remoc.Close.reasonName out.lreason} (event {c.event})"] }
+        | none => pure ()
+  return v
+
 def finishCase (c : CaseSt) : IO Unit := do
   if !c.active then return
   if c.skipped then
     IO.println s!"END {c.name} kind={c.kind} event={c.event} skipped=1"
     return
-  let f04 := checkC04 c
-  let f11 := if c.event == "none" then [] else checkC11 c
+  let cv := if queued c then checkClose c else {}
+  let f04 := checkC04 c ++ (if c.event == "none" then cv.fails else [])
+  let f11 := if c.event == "none" then [] else checkC11 c ++ cv.fails
   let (dP, replayed) := replayCase { c with cfg := { c.cfg with strictEnd := false } }
   let (dF, _) := replayCase { c with cfg := { c.cfg with strictEnd := true } }
   let variant := if !replayed then "na" else if dP.isEmpty && dF.isEmpty then "both" else if dP.isEmpty then "pinned" else if dF.isEmpty then "fixed" else "none"
-  let diffs := if dF.isEmpty then [] else dP
+  let diffs := (if dF.isEmpty then [] else dP) ++ cv.diffs
   for m in f04 do IO.println s!"FAIL {c.name} c04 {m}"
   for m in f11 do IO.println s!"FAIL {c.name} c11 {m}"
   for m in diffs do IO.println s!"DIFF {c.name} {m}"
@@ -424,7 +536,11 @@ def finishCase (c : CaseSt) : IO Unit := do
   -- a failing / cancelled item that is followed by a delivered item of the same sender
   let after := c.sends.any fun s => !okS c s && !isLocal c s.sender &&
     (c.sends.any fun s2 => s2.sender == s.sender && s2.tag > s.tag && (recvTags c).contains s2.tag)
-  IO.println s!"END {c.name} kind={c.kind} event={c.event} c04={if f04.isEmpty then "ok" else "fail"} c11={if c.event == "none" then "na" else if f11.isEmpty then "ok" else "fail"} replay={if !replayed then "skip" else if diffs.isEmpty then "ok" else "diff"} variant={variant} sends={c.sends.length} values={nVal} failed={nFail} streamed={nStream} cancelled={nCancel} halves={nHalves} recverrs={nErr} failthendeliver={if after then 1 else 0} senders={(senderIds c).length}"
+  -- observation F-TC-1: a send refused with `SendError::Closed` (reason Closed) although the receiver was dropped / the
+  -- connection failed and never closed (waiting sends, local clones); counted, not a failure
+  let nGone := if queued c && (c.event == "droprx" || c.event == "connfail") then
+      (c.sends.filter fun s => s.res == "closed" && getKV s.kv "reason" == "closed").length else 0
+  IO.println s!"END {c.name} kind={c.kind} event={c.event} c04={if f04.isEmpty then "ok" else "fail"} c11={if c.event == "none" then "na" else if f11.isEmpty then "ok" else "fail"} replay={if !cv.diffs.isEmpty then "diff" else if !replayed && cv.replayed == 0 then "skip" else if diffs.isEmpty then "ok" else "diff"} variant={variant} sends={c.sends.length} values={nVal} failed={nFail} streamed={nStream} cancelled={nCancel} halves={nHalves} recverrs={nErr} failthendeliver={if after then 1 else 0} senders={(senderIds c).length} closelinks={cv.links} closereplayed={cv.replayed} closediff={cv.diffs.length} droppedhandles={cv.dropped} closedaftergone={nGone}"
 
 def parseOptNat (s : String) : Option Nat := if s == "-" then none else s.toNat?
 
@@ -459,7 +575,7 @@ def stepLine (a : DAcc) (_n : Nat) (line : String) : IO DAcc := do
   | "recv" :: "err" :: rest =>
     let m := kvs rest
     return { a with cur := { c with recvs := c.recvs ++ [.err (getKV m "kind") (getKV m "final" == "1")] } }
-  | ["recv", "eos"] => return { a with cur := { c with recvs := c.recvs ++ [.eos] } }
+  | ["recv", "eos"] => return { a with cur := { c with recvs := c.recvs ++ [.eos], events := c.events ++ ["@eos"] } }
   | "state" :: i :: rest =>
     return { a with cur := { c with states := c.states ++ [(i.toNat?.getD 0, kvs rest)] } }
   | "done" :: rest =>
